@@ -1,6 +1,7 @@
 """Property -> rules table, with the clause accounting that goes into the evidence files."""
 import rules_dispatch  # noqa: F401  (registers rules)
 import rules_serial  # noqa: F401
+import rules_effects  # noqa: F401
 
 COMMON_ASSUME = [
     "clang 14 front end parses /repo as g++ 12 compiles it (same flags, -std=gnu++17, -UNDEBUG)",
@@ -25,6 +26,34 @@ PROPS = {
                         "counts that depend on container sizes not present in the image are compared structurally only (listed as undecided in the evidence)",
                         "the generic loader's absolute seekg(0) assumes the image starts the stream (outside the self-delimiting clause, which is stated for a kind's own loader)"],
         "assumptions": COMMON_ASSUME,
+    },
+    "C08": {
+        "rules": ["R-SAVEPURE", "R-KILLUSE", "R-TAGSELF", "R-RESAVE", "R-EXTENT", "R-PADDING"],
+        "explanation": "Interprocedural effect analysis (MOD/FREE summaries over access-path regions with pointer roots, fixpoint over "
+                       "the call graph, virtual calls by class hierarchy) shows that the call closure of every save in the persisted cone "
+                       "writes only the stream and frees nothing; tag identity, element-to-field restoration and extent/padding rules show "
+                       "the image bytes are a function of the object and that a loaded object can reproduce them.",
+        "decided": ["save closure: no write to the object, to anything reachable from it, to a global or through another parameter (R-SAVEPURE)",
+                    "no query/save frees dictionary memory; no loader leaves a used field dangling: histories save;save, load;save (R-KILLUSE)",
+                    "the tag a save writes is the kind's own on every creation path (R-TAGSELF)",
+                    "every image element is restored into the field save writes it from (R-RESAVE)",
+                    "no over-read at save (R-EXTENT), no padding bytes in the image (R-PADDING)"],
+        "not_decided": ["that every element of every saved array was initialised by the builder (value/coverage reasoning per loop)",
+                        "byte equality of two builds from the same input (needs R-NONDET over the builders; value-level beyond that)"],
+        "assumptions": COMMON_ASSUME + ["pointer roots are tracked flow-insensitively per function; a store through a pointer loaded from a dictionary field is attributed to that field"],
+    },
+    "C14": {
+        "rules": ["R-QUERYPURE", "R-PATTERN", "R-KILLUSE"],
+        "explanation": "The same effect analysis applied to the 9 query operations, getSize, numElements, maxLength of all 13 kinds and to "
+                       "hasNext/next of every iterator class: no store or free reaches dictionary state, a global (other than the standard "
+                       "output streams) or memory an iterator merely borrows; every store through a query's pattern pointer is undone on "
+                       "every path (CFG must-pass-through).",
+        "decided": ["queries write no dictionary field, sub-object, or global (R-QUERYPURE)",
+                    "iterator steps write only their own fields and owned buffers, never borrowed dictionary storage (R-QUERYPURE)",
+                    "stores through the pattern pointer are restored on all exits (R-PATTERN)",
+                    "queries free nothing reachable from the dictionary (R-KILLUSE)"],
+        "not_decided": ["equality of answers across histories is inferred from absence of writable shared state, not observed"],
+        "assumptions": COMMON_ASSUME + ["mod/ref by pointer root without full alias analysis (conservative attribution to the field a pointer was loaded from)"],
     },
     "C16": {
         "rules": ["R-STUB", "R-TAGS"],
